@@ -80,6 +80,11 @@ CLAIMED = {
                      "exactly the bound nodes (Permutation, any hash order); roots/leaves/orphans are the members filtered by the C01/C02 predicates; DOT exports contain exactly "
                      "one node statement per member and one edge statement per iterated edge with the callbacks' attributes.",
                 tech="Coq proof: refinement to an association-list map, permutation lemmas for order-dependent views + differential correspondence given the observed order", ref="DESIGN.md §5 C18"),
+    "C19": dict(text="Theorems (coq/props/C19.v) about the ownership structure read off the source (node handles, edges, paths, result vectors and containers hold nodes "
+                     "strongly; adjacency entries weakly): for every legal history no node value is released twice, none while any live object holds its node, a drop releases "
+                     "exactly the nodes whose strong count reaches zero, and after all objects are dropped exactly the nodes ever held are released (cycles, self-loops, "
+                     "still-connected structures included); adjacency changes never affect ownership. Validated by drop-logging payloads on all four flavours after every step.",
+                tech="Coq proof: invariant over ownership histories + differential correspondence with drop-counting node values", ref="DESIGN.md §5 C19"),
 }
 
 PENDING = {
